@@ -42,6 +42,24 @@ CHECKS = {
             "d <= 3, scalings 2^-8..2^8; instances overflowing 32 bits are dropped and counted. Ill-conditioning beyond that is rounding, not algebra."
         ),
     ),
+    "C09": dict(
+        engine="exact-replay",
+        technique="TLC exact evaluation of IwpExact.tla / ExpGramExact.tla (closed forms + semigroup, Chapman-Kolmogorov, Lyapunov laws as invariants) and replay into the real priors and gram_util",
+        text=(
+            "IwpExact.tla defines the Taylor/Pascal transition and Hilbert-type process noise of the integrated Wiener "
+            "process, ExpGramExact.tla the matrix exponential and finite-horizon Gramian of nilpotent drifts as finite "
+            "rational sums; TLC evaluates them exactly per instance and checks the semigroup law, Chapman-Kolmogorov, "
+            "linearity in the output scale, the integral definition and the Lyapunov identity as invariants. Every "
+            "instance is replayed into the dense/isotropic/block-diagonal Wiener priors (transition, preconditioner "
+            "removal, merge), the dense exponential / integrated-OU priors and exp_gram_cholesky with all five "
+            "Pade/Legendre orders in float64 and float32."
+        ),
+        design_ref="DESIGN.md 3.3, 4 (C09)",
+        note=(
+            "Trusted: TLC's range-checked rational arithmetic (Rat.tla), tolerances 1e-9 / 1e-11 (float64), 2e-4 (float32). "
+            "Not covered: drifts with non-zero spectrum (OU with a rate, Matern) - transcendental, no exact model; q <= 6, n*d <= 6."
+        ),
+    ),
 }
 
 NOT_APPLICABLE = {
